@@ -12,6 +12,7 @@ import (
 	"encoding/json"
 	"flag"
 	"math/rand"
+	"os"
 
 	"github.com/metrico/qryn/ctrl/qryn/maintenance"
 	"github.com/metrico/qryn/ctrl/qryn/sql"
@@ -169,6 +170,19 @@ func gen(r *rand.Rand, id int) Case {
 		if r.Intn(5) < 3 {
 			f.Kind = "after"
 		}
+		if len(errPool) > 0 && r.Intn(2) == 0 {
+			f.Err = errPool[r.Intn(len(errPool))]
+		}
+		switch r.Intn(12) {
+		case 0: // a second failing call a little later in the same start
+			g := Fault{N: f.N + 1 + r.Intn(5), Kind: "before"}
+			if r.Intn(2) == 0 {
+				g.Kind = "after"
+			}
+			f.Also = append(f.Also, g)
+		case 1, 2: // an error first, the kill a few calls later
+			f.DeadFrom = f.N + 2 + r.Intn(3)
+		}
 		c.Faults = append(c.Faults, f)
 		start(db, c.Cfg, f)
 	}
@@ -176,12 +190,79 @@ func gen(r *rand.Rand, id int) Case {
 	return c
 }
 
+// error values a failing call may return (Fault.Err), given by checks/c18.py: a pool of realistic ClickHouse /
+// driver errors plus every string literal the ctrl code compares error texts with
+var errPool []string
+
+func loadErrPool(path string) {
+	if path == "" {
+		return
+	}
+	b, err := os.ReadFile(path)
+	if err != nil {
+		panic(err)
+	}
+	if err := json.Unmarshal(b, &errPool); err != nil {
+		panic(err)
+	}
+}
+
+// targeted: per main configuration and per error value, `per` failures before a script statement, one at a
+// version write and one at the version read (the error VALUE is what varies here)
+func targeted(r *rand.Rand, per int, out *hx.Out) {
+	id := 0
+	names := []string{"single", "cloud", "clustered", "cloud+clustered"}
+	for ci, cfg := range mainCfgs {
+		log := start(NewDB(), cfg, nil).Log
+		var scripts, ivs, rds []int
+		for i, e := range log {
+			switch e.T {
+			case "s":
+				scripts = append(scripts, i)
+			case "iv":
+				ivs = append(ivs, i)
+			case "rd":
+				rds = append(rds, i)
+			}
+		}
+		for _, spec := range errPool {
+			var at []int
+			for j := 0; j < per && len(scripts) > 0; j++ {
+				at = append(at, scripts[r.Intn(len(scripts))])
+			}
+			if len(ivs) > 0 {
+				at = append(at, ivs[r.Intn(len(ivs))])
+			}
+			if len(rds) > 0 {
+				at = append(at, rds[r.Intn(len(rds))])
+			}
+			for j, n := range at {
+				kind := "before"
+				if j == 1 {
+					kind = "after"
+				}
+				c := Case{ID: id, Class: names[ci] + "/error-value", Cfg: cfg, Faults: []*Fault{{N: n, Kind: kind, Err: spec}}}
+				runCase(&c)
+				out.Put(c)
+				id++
+			}
+		}
+	}
+}
+
 func main() {
+	errtexts := flag.String("errtexts", "", "JSON file: list of error values (Fault.Err) to draw failures from")
+	targetedN := flag.Int("targeted", 0, "per configuration and error value: this many failing script statements (+1 version write, +1 version read)")
 	split := flag.Bool("split", false, "print getSQLFile of the six embedded scripts")
 	exhaustive := flag.Bool("exhaustive", false, "every call x {before, after} of the first start, main configurations")
 	f := hx.ParseFlags()
 	out := hx.OpenOut(f.Out)
 	defer out.Close()
+	loadErrPool(*errtexts)
+	if *targetedN > 0 {
+		targeted(hx.Rand(f.Seed), *targetedN, out)
+		return
+	}
 	if *split {
 		for _, s := range []struct {
 			K    int
@@ -213,7 +294,8 @@ func main() {
 		id := 0
 		names := []string{"single", "cloud", "clustered", "cloud+clustered"}
 		for ci, cfg := range mainCfgs {
-			n := len(start(NewDB(), cfg, nil).Log)
+			log := start(NewDB(), cfg, nil).Log
+			n := len(log)
 			for i := 0; i < n; i++ {
 				for _, kind := range []string{"before", "after"} {
 					c := Case{ID: id, Class: names[ci] + "/exhaustive", Cfg: cfg, Faults: []*Fault{{N: i, Kind: kind}}}
@@ -221,6 +303,20 @@ func main() {
 					out.Put(c)
 					id++
 				}
+				if log[i].T == "s" {
+					for _, spec := range errPool {
+						c := Case{ID: id, Class: names[ci] + "/exhaustive-error-value", Cfg: cfg, Faults: []*Fault{{N: i, Kind: "before", Err: spec}}}
+						runCase(&c)
+						out.Put(c)
+						id++
+					}
+				}
+				// an error at call i, the process killed two calls later (differs from the above only for code
+				// that carries on after an error)
+				c := Case{ID: id, Class: names[ci] + "/exhaustive-kill", Cfg: cfg, Faults: []*Fault{{N: i, Kind: "before", DeadFrom: i + 2}}}
+				runCase(&c)
+				out.Put(c)
+				id++
 			}
 		}
 		return
